@@ -86,9 +86,42 @@ def _classify(node: ast.BinOp, par: Dict[int, ast.AST]) -> Tuple[str, ast.AST]:
 
 
 
+def normalize_sites_rule(idx: Index, res: Result, rule: str = "NORM", prefixes=("BPTK_Py/bptk.py", "BPTK_Py/modeling/model.py", "BPTK_Py/util/floating_point.py",
+                                                                              "BPTK_Py/sdsimulation/", "BPTK_Py/scenariorunners/", "BPTK_Py/server/")) -> int:
+    """Every normalize(x, base, offset, precision) call snaps to the grid offset + k*base with the digits of *both* offset and base:
+    precision = max(scale(offset), scale(base)).  Fewer digits move grid points (0.25 -> 0.2; start 0.5, dt 1: the clock sticks at 2.0)."""
+    from ..util import deref
+    n_sites = 0
+    for pre in prefixes:
+        for fi in idx.all_funcs(pre):
+            for c in iter_calls(fi.node):
+                if call_name(c) != "normalize" or fi.qual == "normalize":
+                    continue
+                a = dict(zip(("x", "base", "offset", "precision"), c.args))
+                a.update({k.arg: k.value for k in c.keywords if k.arg})
+                if not {"base", "offset", "precision"} <= set(a):
+                    continue
+                n_sites += 1
+                p_ = src(deref(fi.node, a["precision"])).replace("fp.", "")
+                ok = False
+                for conv in (lambda e: src(e), lambda e: src(deref(fi.node, e))):
+                    b_, o_ = conv(a["base"]).replace("fp.", ""), conv(a["offset"]).replace("fp.", "")
+                    try:
+                        ok = ok or nf(p_) in (nf("max(scale(%s), scale(%s))" % (o_, b_)), nf("max(scale(%s), scale(%s))" % (b_, o_)))
+                    except SyntaxError:
+                        pass
+                b_, o_ = src(a["base"]), src(a["offset"])
+                res.check(rule, "%s: normalize() keeps the digits of offset and base" % fi.qual, ok, fi.loc(c), fi.qual, src(c)[:110],
+                          "%s normalises with precision %s, not max(scale(%s), scale(%s)): grid points that need the digits of the other quantity are "
+                          "rounded away (start 0.5 with dt 1: 1.5 -> 2.0, the clock repeats a time; dt 0.25 with start 0: 0.25 -> 0.2)" % (fi.qual, p_, o_, b_),
+                          key="%s/%s/normalize-precision" % (rule, fi.qual))
+    return n_sites
+
+
 def check_normalisation(idx: Index, res: Result) -> None:
     """timerange and Model.memoize normalise with the same (base=dt, offset=start, precision=max(scale(start), scale(dt)));
     the memo is probed, evaluated and filled under the normalised key.  Shared by C05 and C01."""
+    res.floor("normalize() call sites", normalize_sites_rule(idx, res), 3)
     # ---- timerange: advance normalised, yields the loop variable ---------------------------------------------------
     tr = idx.func(FP, "timerange")
     ps = params(tr.node)
@@ -260,7 +293,8 @@ def check_c05(idx: Index, tier: str, res: Result) -> None:
     check_normalisation(idx, res)
 
     # ---- the batch sweep and the step: tables keyed by the range variable -----------------------------------------------------
-    from .sddsl_templates import sweep_loop
+    from .sddsl_templates import sweep_loop, _sweep
+    _sweep(idx, res)                 # the batch run sweeps the model's own (start, stop, dt)
     sim, _lp, _rng, v, st = sweep_loop(idx)
     res.check("KEY", "result rows keyed by the range variable", len(st) == 1 and src(st[0].targets[0].slice) == v, sim.loc(), sim.qual,
               norm_stmt(st[0]) if st else "", "result rows are keyed by %s" % (src(st[0].targets[0].slice) if st else "?"), key="KEY/__simulate/rows")
